@@ -18,7 +18,9 @@ REPO = os.environ.get("PYVC_REPO", "/repo")
 
 
 def run_one(pid, m):
-    tmp = tempfile.mkdtemp(prefix="pyvc_mut_")
+    base = os.environ.get("PYVC_SCRATCH", "/var/tmp/pyvc_scratch")
+    os.makedirs(base, exist_ok=True)
+    tmp = tempfile.mkdtemp(prefix="mut_", dir=base)
     try:
         shutil.copytree(os.path.join(REPO, "fortls"), os.path.join(tmp, "fortls"),
                         ignore=shutil.ignore_patterns("__pycache__"))
